@@ -7,5 +7,6 @@ CONSTANTS
   MaxNALs265 = 3
   EmitLen = 1
   DevH265UpdaterComparesStored = FALSE
+  DevOfflineRestartKeepsParams = FALSE
 INVARIANTS DesignAgrees EmitCases
 CHECK_DEADLOCK FALSE
